@@ -126,13 +126,106 @@ def sensitivity_holds(L, i, opt, p, d0, x, g, res):
     return v == 'unsat'
 
 
+def lm_to_builder_model(L):
+    """the same model as builder calls: rows become expressions a1*v1 + a2*v2 + ... cmp b"""
+    names = [v[0] for v in L['vars']]
+    mp = {n: 'v%d' % i for i, n in enumerate(names)}
+
+    def lin_exp(coefs):
+        terms = [['*', ['num', repr(float(a))], ['var', mp[n]]] for a, n in zip(coefs, names) if float(a) != 0]
+        if not terms:
+            return ['num', '0.0']
+        e = terms[0]
+        for t in terms[1:]:
+            e = ['+', e, t]
+        return e
+    cons = []
+    for r in L['rows']:
+        c = {'l': lin_exp(r['a']), 'c': r['c'], 'r': ['num', repr(float(r['b']))]}
+        if r.get('name'):
+            c['name'] = r['name']
+        cons.append(c)
+    obj = lin_exp(L['obj'])
+    if float(L.get('off', 0) or 0) != 0:
+        obj = ['+', obj, ['num', repr(float(L['off']))]]
+    return {'vars': [[mp[v[0]], v[1]] for v in L['vars']], 'obj': {'dir': L['dir'], 'e': obj}, 'cons': cons}
+
+
+def judge_builder(item, out, res):
+    """the same question through the builder: ModelBuilder -> Linearizer -> Clarabel -> BuilderSolution::shadow_price.
+    The exact sensitivity is that of the SOURCE model (what the user wrote)."""
+    L = out['lm']
+    b = item.get('builder_out') or {}
+    cl = b.get('clarabel') or {}
+    if not cl.get('ok'):
+        return
+    st, opt, xstar = optimum(L)
+    if st != 'ok':
+        return
+    x = lmcheck.lm_env(L)
+    g = lin.lin_obj(L, x)
+    v, _, _ = zq.query([lin.lin_c(L, x), g == sem.Q(opt), z3.Or([x[n] != sem.Q(xstar[n]) for n in x])], timeout_ms=QT)
+    res['q'] += 2
+    if v != 'unsat':
+        return
+    prices = dict((n, p) for n, p in cl['prices'])
+    names = [row.get('name') or '' for row in L['rows']]
+    Lc = (b.get('lin') or {}).get('ok')
+    for i, nm in enumerate(names):
+        if not nm or names.count(nm) > 1:
+            continue
+        p, d0 = exact_slope(L, i, opt, x, g, res)
+        if p is None:
+            continue
+        res['builder_rows_checked'] = res.get('builder_rows_checked', 0) + 1
+        rep = prices.get(nm)
+        if rep is None:
+            if all(float(a) == 0 for a in L['rows'][i]['a']):
+                continue   # a constant row is folded away by the compiler; it has no price to report
+            res['fails'].append({'ob': 'builder-named-row-without-price', 'row': nm, 'point': None})
+            continue
+        rep = Fraction(float(rep))
+        if abs(rep - p) > PTOL * (1 + abs(p)) * 10:
+            cause = 'other'
+            # attribution: did the ranges the linearizer derived make this row degenerate in the compiled model?
+            if Lc is not None:
+                j = [k for k, r in enumerate(Lc['rows']) if r.get('name') == nm]
+                if len(j) == 1:
+                    so, vo, _ = optimum(Lc)
+                    s1, v1, _ = optimum(Lc, (j[0], d0))
+                    s2, v2, _ = optimum(Lc, (j[0], -d0))
+                    res['q'] += 3
+                    same_as_source = (so == s1 == s2 == 'ok' and (v1 - vo) == p * d0 and (v2 - vo) == -p * d0)
+                    if not same_as_source:
+                        # exact sensitivity of the COMPILED model differs from the source model's (kink, or the
+                        # perturbed compiled model is infeasible because a derived range froze the variable)
+                        cause = 'derived-variable-range-makes-the-named-row-degenerate'
+            res['fails'].append({'ob': 'builder-shadow-price-wrong', 'row': nm, 'reported': fs(float(rep)), 'exact': str(p), 'cause': cause,
+                                 'dir': L['dir'], 'cmp': L['rows'][i]['c'], 'point': None})
+
+
 def work(chunk):
     zq.reset_stats()
-    outs = run_driver([{'cmd': 'lm', 'lm': it['lm'], 'ops': ['clarabel']} for it in chunk])
+    jobs = []
+    for it in chunk:
+        jobs.append({'cmd': 'lm', 'lm': it['lm'], 'ops': ['clarabel']})
+        if it.get('builder'):
+            jobs.append({'cmd': 'builder', 'model': lm_to_builder_model(it['lm']), 'order': 'obj_last',
+                         'shadow_prices': [r.get('name') for r in it['lm']['rows'] if r.get('name')]})
+    allouts = run_driver(jobs)
+    outs, k = [], 0
+    for it in chunk:
+        outs.append(allouts[k])
+        k += 1
+        if it.get('builder'):
+            it['builder_out'] = allouts[k]
+            k += 1
     results, tw = [], [0, 0]
     for it, out in zip(chunk, outs):
         try:
             r = judge(it, out)
+            if it.get('builder') and r['status'] == 'ok':
+                judge_builder(it, out, r)
             results.append(r)
             if r['rows_checked'] and it['idx'] % 5 == 0:
                 m = copy.deepcopy(out)
@@ -171,10 +264,16 @@ def family(t, sd):
     lim = os.environ.get('VERIF_LIMIT')
     if lim:
         specs = specs[::max(1, len(specs) // int(lim))]
-    return [{'idx': i, 'lm': s} for i, s in enumerate(specs)]
+    return [{'idx': i, 'lm': s, 'builder': (i % 3 == 0 and not s.get('off'))} for i, s in enumerate(specs)]
 
 
 def replay_fail(it, fail):
+    if fail['ob'].startswith('builder-'):
+        r = work([dict(it, idx=0, builder=True)])[0]['results'][0]
+        same = [f for f in r['fails'] if f['ob'] == fail['ob'] and f.get('row') == fail.get('row')]
+        if not same:
+            return False, {'why': 'not reproduced'}
+        return True, {'builder_model': lm_to_builder_model(it['lm']), 'failure': same[0]}
     out = run_driver([{'cmd': 'lm', 'lm': it['lm'], 'ops': ['clarabel']}])[0]
     r = judge(dict(it, idx=0), out)
     same = [f for f in r['fails'] if f['ob'] == fail['ob'] and f.get('row') == fail.get('row')]
@@ -199,10 +298,12 @@ def main(prop='C20'):
         for k in stats:
             stats[k] += p['stats'][k]
     by_status, rows_checked, rows_skipped, nfail, confirmed, nq = {}, 0, 0, 0, 0, 0
+    brows = 0
     for r in results:
         by_status[r['status']] = by_status.get(r['status'], 0) + 1
         rows_checked += r['rows_checked']
         rows_skipped += r['rows_skipped']
+        brows += r.get('builder_rows_checked', 0)
         nq += r['q']
         it = items[r['idx']]
         if r['status'] == 'fault':
@@ -210,7 +311,7 @@ def main(prop='C20'):
         for fail in r['fails']:
             nfail += 1
             ok, detail = replay_fail(it, fail)
-            sig = {'stage': 'shadow-price', 'obligation': fail['ob'], 'dir': fail.get('dir'), 'cmp': fail.get('cmp'), 'lm': canon(it['lm'])}
+            sig = {'stage': 'shadow-price', 'obligation': fail['ob'], 'cause': fail.get('cause'), 'dir': fail.get('dir'), 'cmp': fail.get('cmp'), 'lm': canon(it['lm'])}
             if not ok:
                 rep.broken.append({'why': 'did not reproduce', 'sig': sig})
                 continue
@@ -223,7 +324,7 @@ def main(prop='C20'):
     evidence = {
         'level': 'translation_validation', 'tier': t, 'seed': sd,
         'coverage': {
-            'programs': len(items), 'by_status': by_status, 'rows_checked': rows_checked, 'rows_skipped_degenerate': rows_skipped,
+            'programs': len(items), 'by_status': by_status, 'rows_checked': rows_checked, 'rows_skipped_degenerate': rows_skipped, 'builder_rows_checked': brows,
             'disagreements_checked': nq, 'queries': dict(stats, optimize_and_queries=nq),
             'obligations_per_program': ['optimum exists and is unique (z3 Optimize + unsat query)', 'per named row: for a symbolic delta in [-d0,d0] the optimum of the perturbed model is opt + p*delta (two queries, one with a quantifier alternation)',
                                         '|reported - p| <= 1e-4 (1+|p|)', 'unnamed rows report none, named rows report one'],
@@ -231,7 +332,7 @@ def main(prop='C20'):
             'must_fail_twins': {'tried': tw[0], 'detected': tw[1]},
             'samples': [it['lm'] for it in items[:3]], 'exhaustive': False,
             'family': 'seeded continuous L(3,3) with named rows, min/max, <= >= =, offsets',
-            'functions_encoded': ['solve_real_lp_problem_clarabel (dual values via good_lp bridge collect_good_lp_duals)'],
+            'functions_encoded': ['solve_real_lp_problem_clarabel (dual values via good_lp bridge collect_good_lp_duals)', 'ModelBuilder::solve_with(Clarabel) + BuilderSolution::shadow_price (through Linearizer::linearize)'],
             'solver': 'z3 %s (Optimize for the exact optimum)' % z3.get_version_string(), 'driver_build_s': round(build_s, 1), 'check_s': round(time.time() - t0, 1),
             'outside': ['degenerate or non-unique optima (filtered by the solver, counted)'],
         },
